@@ -75,7 +75,7 @@ CLAIMS = ["SkippedIsInert", "RecordedIsInert", "IfFamilyIsAddressNeutral", "Erro
           "SymbolTableFollowsAdder", "RefReadsTable", "SectionStackFollowsManual", "EnumAssignsSequentialValues",
           "StackIsLifo", "FinalTableIsListed", "LastPassImageEqualsFile", "ErrsDeltaIsDiagCount", "OpenConstructsAreReported",
           "ExpectListIsHistory", "EndExpectReportsExactlyUnmet", "ExpectDoesNotNest", "ExpectEndsWithPass",
-          "IfdefReadsTable", "PhaseErrorForcesRepass", "CodeLenIsEmitted", "EmptyLineIsInert", "ListingControlIsInert",
+          "IfdefReadsTable", "PhaseErrorForcesRepass", "RepassHasCause", "CodeLenIsEmitted", "EmptyLineIsInert", "ListingControlIsInert",
           "AlignReachesBoundary", "EndStopsAssembly", "EndSetsEntry"]
 # what property C12 (selection) or the manual state definitely; the others are finer predictions of the model
 DEFINITE = {"SkippedIsInert": "a statement in a branch that is not selected had an effect",     # (code, address, message,
@@ -334,8 +334,10 @@ def regroup(trace, rc, p, lst=None):
                 ga = [_lit(a, radix10) for a in args] if len(args) == e["argc"] else [-1] * e["argc"]
             elif op == "ENDEXPECT":
                 gk = "ENDEXPECT"
-            elif op == "" and e["argc"] == 0:           # (uPD77230 writes instructions without a mnemonic)
-                gk = "EMPTY"
+            elif op == "" and e["argc"] == 0 and (here["_t"].strip()[:1] in ("", ";")
+                                                  or (split is not None and split.get("op", "x") == "")):
+                gk = "EMPTY"                            # blank, comment or label only AS WRITTEN (a code generator may
+                                                        # empty OpPart itself: Rabbit 2000 ALTD prefix, uPD77230)
             elif op in LIST_OPS:
                 gk = "LIST"
             elif op == "ALIGN":
@@ -740,6 +742,12 @@ def render(prog):
             out.append("\tenum\tEA,EB=5,EC")
         elif k == "NEXTENUM":
             out.append("\tnextenum\tED,EE")
+        elif k == "EXPECT":
+            out.append("\texpect\t" + {1: "1200", 2: "1200,1450", 3: "1200,1200", 4: "2130,1200", 5: "1200,2130"}[a])
+        elif k in ("ENDEXPECT", "END"):
+            out.append("\t" + k.lower())
+        elif k in ("IFDEF", "IFNDEF"):
+            out.append("\t%s\tCX" % k.lower())
         else:
             raise CheckError("AsCore_Gen printed an unknown statement %r" % (st,))
     return "\n".join(out) + "\n"
@@ -751,13 +759,15 @@ def gen_models(tier):
     cfg = "AsCore_Gen.cfg" if tier == "quick" else "AsCore_Gen4.cfg"
     cfgm = "AsCore_GenM.cfg" if tier == "quick" else "AsCore_GenM4.cfg"
     cfgs = "AsCore_GenS.cfg" if tier == "quick" else "AsCore_GenS4.cfg"
+    cfgx = "AsCore_GenX.cfg" if tier == "quick" else "AsCore_GenX4.cfg"
     nsim = 40 if tier == "quick" else 800       # (the simulator evaluates EVERY successor of a state to pick one: 40
                                                 # statements per step in the family "all")
 
     def chain1():
         mc = tlc.run("AsCore_Gen", cfg, workers=4, timeout=1500, mem="6g")
         mcm = tlc.run("AsCore_Gen", cfgm, workers=4, timeout=1500, mem="6g")
-        return mc, mcm
+        mcx = tlc.run("AsCore_Gen", cfgx, workers=4, timeout=1500, mem="6g")
+        return mc, mcm, mcx
 
     def chain2():
         mcs = tlc.run("AsCore_Gen", cfgs, workers=4, timeout=1500, mem="6g")
@@ -767,9 +777,9 @@ def gen_models(tier):
         return mcs, mcd, sim
     with cf.ThreadPoolExecutor(max_workers=2) as ex:
         f1, f2 = ex.submit(chain1), ex.submit(chain2)
-        mc, mcm = f1.result()
+        mc, mcm, mcx = f1.result()
         mcs, mcd, sim = f2.result()
-    return (cfg, cfgm, cfgs), mc, mcm, mcd, mcs, sim
+    return (cfg, cfgm, cfgs, cfgx), mc, mcm, mcd, mcs, sim, mcx
 
 
 def _restore_twice_in_body(prog):
@@ -792,31 +802,34 @@ def generated(rep, bld, tier, models=None):
     """(M)+(G)+(V) on the bounded family of AsCore_MC: TLC checks the forward model against StmtSucc and exports every
     complete behaviour with the outcome it predicts; the programs are rendered, assembled with hooks, the outcome
     is compared and the recorded executions are validated by AsCore_Trace like the golden ones."""
-    (cfg, cfgm, cfgs), mc, mcm, mcd, mcs, sim = models if models is not None else gen_models(tier)
+    (cfg, cfgm, cfgs, cfgx), mc, mcm, mcd, mcs, sim, mcx = models if models is not None else gen_models(tier)
     for what, r in (("AsCore_Gen(%s)" % cfg, mc), ("AsCore_Gen(%s)" % cfgm, mcm), ("AsCore_Gen(AsCore_GenD.cfg)", mcd),
-                    ("AsCore_Gen(%s)" % cfgs, mcs), ("AsCore_Gen simulate", sim)):
+                    ("AsCore_Gen(%s)" % cfgs, mcs), ("AsCore_Gen(%s)" % cfgx, mcx), ("AsCore_Gen simulate", sim)):
         tlc.must(r, what)
         if r.violation:
             raise CheckError("the composed design violates its own invariants (%s): %s" % (what, r.violation[:600]))
     rep.model("AsCore_Gen(%s)" % cfg, mc)
     rep.model("AsCore_Gen(%s)" % cfgm, mcm)
     rep.model("AsCore_Gen(%s)" % cfgs, mcs)
+    rep.model("AsCore_Gen(%s)" % cfgx, mcx)
     behs = [b for (tag, b) in mc.printed if tag == "BEH"]
     behm = [b for (tag, b) in mcm.printed if tag == "BEH"]
     behsy = [b for (tag, b) in mcs.printed if tag == "BEH"]
-    nall = len(behs) + len(behm) + len(behsy) + len(mcd.printed)
+    behx = [b for (tag, b) in mcx.printed if tag == "BEH"]     # EXPECT family: all of it (thorough: 30 % of the 4-line)
+    nall = len(behs) + len(behm) + len(behsy) + len(behx) + len(mcd.printed)
     if tier == "quick":
         # flat family: every program of up to 2 lines, a seeded fifth of the 3-line programs; macro family: a seeded
         # 40 % (thorough: one line more each; flat: all up to 3 lines + a seeded 35 % of the 4-line programs, macro: all)
         r = rng("ascore-gen")
         behs = [b for b in behs if len(b["prog"]) <= 2 or r.random() < 0.2]
         behm = [b for b in behm if r.random() < 0.4]
-        behsy = [b for b in behsy if len(b["prog"]) <= 2 or r.random() < 0.25]     # symbol family: a seeded quarter of
+        behsy = [b for b in behsy if len(b["prog"]) <= 2 or r.random() < 0.2]      # symbol family: a seeded fifth of
     else:                                                                          # the 3-line programs (thorough: all
         r = rng("ascore-gen")                                                      # up to 3 lines, 15 % of the 4-line)
         behs = [b for b in behs if len(b["prog"]) <= 3 or r.random() < 0.35]
         behsy = [b for b in behsy if len(b["prog"]) <= 3 or r.random() < 0.15]
-    behs += behm + behsy + [b for (tag, b) in mcd.printed if tag == "BEH"]   # + the directed programs (regression seeds)
+        behx = [b for b in behx if len(b["prog"]) <= 3 or r.random() < 0.3]
+    behs += behm + behsy + behx + [b for (tag, b) in mcd.printed if tag == "BEH"]   # + the directed programs (regression seeds)
     seen = set(json.dumps(b["prog"]) for b in behs)
     for (tag, b) in sim.printed:
         key = json.dumps(b["prog"])
